@@ -68,9 +68,32 @@ static int cb(YR_SCAN_CONTEXT* ctx, int msg, void* data, void* ud) {
   return CALLBACK_CONTINUE;
 }
 
+static int scenario_files; static char fpath[2][640]; static const char* g_tmp = "/tmp";
 static void body(int t, TCTX* c) {
   YR_SCANNER* sc = NULL;
   const char* buf = BUFS[bufsel[t]];
+  if (scenario_files) {
+    /* descriptors are process-wide: thread 0 scans a file by path, thread 1 opens its own file and scans it twice through the descriptor */
+    int fd = -1;
+    if (t == 1) { yv_point("api:open"); fd = open(fpath[1], O_RDONLY); }
+    yv_point("api:create");
+    if (yr_scanner_create(rules, &sc) != ERROR_SUCCESS) { c->rc = -1; return; }
+    yr_scanner_set_callback(sc, cb, c);
+    yr_scanner_define_string_variable(sc, "ext", EXTS[t % 4]);
+    yv_point("api:scan");
+    if (t == 0) c->rc = yr_scanner_scan_file(sc, fpath[0]);
+    else {
+      int rc1 = yr_scanner_scan_fd(sc, fd);
+      yv_point("api:between");
+      int rc2 = yr_scanner_scan_fd(sc, fd);
+      char b[64]; snprintf(b, sizeof b, ";rc1=%d,rc2=%d", rc1, rc2); ob_puts(&c->trace, b);
+      c->rc = rc2;
+      yv_point("api:close"); close(fd);
+    }
+    yv_point("api:destroy");
+    yr_scanner_destroy(sc);
+    return;
+  }
   if (rules_level && t == 0) {
     yv_point("api:rules_scan");
     c->rc = yr_rules_scan_mem(rules, (const uint8_t*) buf, strlen(buf), 0, cb, c, 0);
@@ -116,11 +139,15 @@ static void invariants(const char* label) {
 }
 
 static void setup_scenario(const char* name) {
-  nthreads = 2; rules_level = 0; scenario_abort = 0;
+  nthreads = 2; rules_level = 0; scenario_abort = 0; scenario_files = 0;
   for (int t = 0; t < YV_MAXT; t++) { memset(&tc[t], 0, sizeof tc[t]); memset(&solo[t], 0, sizeof solo[t]); tc[t].abort_at = tc[t].error_at = solo[t].abort_at = solo[t].error_at = -1; }
   for (int t = 0; t < YV_MAXT; t++) bufsel[t] = t % 4;
   if (!strcmp(name, "two")) { }
   else if (!strcmp(name, "same-size")) { bufsel[1] = 2; }
+  else if (!strcmp(name, "files")) {
+    scenario_files = 1;
+    for (int t = 0; t < 2; t++) { snprintf(fpath[t], sizeof fpath[t], "%s/c09_file_%d_%d.bin", g_tmp, (int) getpid(), t); FILE* f = fopen(fpath[t], "wb"); if (f) { fputs(BUFS[bufsel[t]], f); fclose(f); } }
+  }
   else if (!strcmp(name, "tmm")) { bufsel[0] = 4; bufsel[1] = 5; }   /* thread 0 hits the match limit of $q (answers CONTINUE) while thread 1 needs every match of $q */
   else if (!strcmp(name, "three")) nthreads = 3;
   else if (!strcmp(name, "abort")) { tc[1].abort_at = solo[1].abort_at = 2; }
@@ -168,12 +195,13 @@ static void run_child(const char* scenario, int* sched, int ns) {
   for (int t = 0; t < nthreads; t++) { if (t) ob_putc(&o, ','); ob_int(&o, tc[t].rc); }
   ob_puts(&o, "]}\n");
   size_t off = 0; while (off < o.n) { ssize_t w = write(1, o.p + off, o.n - off); if (w <= 0) break; off += (size_t) w; }
+  if (scenario_files) { unlink(fpath[0]); unlink(fpath[1]); }
   _exit(0);
 }
 
 int main(int argc, char** argv) {
   char* line = NULL; size_t cap = 0; ssize_t len;
-  const char* tmp = argc > 1 ? argv[1] : "/tmp";
+  const char* tmp = argc > 1 ? argv[1] : "/tmp"; g_tmp = tmp;
   yr_initialize();
   YR_COMPILER* c; yr_compiler_create(&c);
   yr_compiler_define_string_variable(c, "ext", "v0");
